@@ -307,7 +307,7 @@ pub fn run(ctx: &Ctx, st: &mut Stats) -> Vec<Violation> {
     if let Err(x) = check(&Case::Total(sp), st) {
         v.push(x);
     }
-    v.extend(run_proptest(ctx, st, "random", ctx.pick(20000, 400000), strategy, check));
+    v.extend(run_proptest(ctx, st, "random", ctx.cases(40_000, 400_000), strategy, check));
     if !v.is_empty() {
         return v;
     }
@@ -321,7 +321,7 @@ fn sweeps(ctx: &Ctx, st: &mut Stats) -> Vec<Violation> {
     let hi_n = 0x7F80_0000u64; // exclusive
     let normals = hi_n - lo_n;
     // ---- cbrtf over normal magnitudes (oddness covers the other sign)
-    let stride: u64 = ctx.pick(127, 1);
+    let stride: u64 = if ctx.light { 509 } else { ctx.pick(61, 1) };
     let off = if stride > 1 { ctx.seed % stride } else { 0 };
     let count = (normals - off + stride - 1) / stride;
     out.extend(par_sweep(ctx, st, count, |lo, hi, st| {
@@ -344,7 +344,7 @@ fn sweeps(ctx: &Ctx, st: &mut Stats) -> Vec<Violation> {
         st.exhaustive_parts.push("cbrtf: every normal f32 of both signs (2 x 2,130,706,432 values; negative sign through the oddness check)".into());
     }
     // ---- powf for each exponent the library uses
-    let stride: u64 = ctx.pick(61, 1);
+    let stride: u64 = if ctx.light { 251 } else { ctx.pick(31, 1) };
     let off = if stride > 1 { ctx.seed % stride } else { 0 };
     let count = (normals - off + stride - 1) / stride;
     for (ei, y) in LIB_EXPONENTS.iter().copied().enumerate() {
@@ -377,7 +377,7 @@ fn sweeps(ctx: &Ctx, st: &mut Stats) -> Vec<Violation> {
         st.exhaustive_parts.push("powf: every positive normal x for each of the 12 exponents the library uses".into());
     }
     // ---- expf over all f32
-    let stride: u64 = ctx.pick(97, 1);
+    let stride: u64 = if ctx.light { 389 } else { ctx.pick(47, 1) };
     let off = if stride > 1 { ctx.seed % stride } else { 0 };
     let count = ((1u64 << 32) - off + stride - 1) / stride;
     out.extend(par_sweep(ctx, st, count, |lo, hi, st| {
